@@ -343,8 +343,8 @@ def run(ctx):
         try:
             for vi, variant in enumerate(variants):
                 rs = Resaver(ctx, sf, variant)
-                # quick: the histories are dealt out to the variants in turn; thorough: every history on every variant
-                mine = [p for k, p in enumerate(repaths) if not ctx.quick or k % len(variants) == vi]
+                # the histories are dealt out to the variants in turn (quick: <= 2 modifications, 2 variants; thorough: <= 3, 3 variants)
+                mine = [p for k, p in enumerate(repaths) if k % len(variants) == vi]
                 for path in mine:
                     ctx.case(("resave", variant, path[-1]["_t"]), sum(1 for t in path if t["act"] == "save") > 1)
                     await rs.run(path)
